@@ -298,7 +298,9 @@ class Field:
             return f"{num(lo)}..={num(lo + n - 1)}"
         if len(self.ranges) == 1 and not getattr(self, "force_list", False):
             lo, n = self.ranges[0]
-            if n == 1:
+            if n == 1 and "range1" in getattr(self, "style", "std"):
+                head, body = "bits", f"{num(lo)}..={num(lo)}"      # a one-bit-wide inclusive range is a legal spelling of a single bit
+            elif n == 1:
                 head, body = "bit", num(lo)
             else:
                 head, body = "bits", f"{num(lo)}..={num(lo + n - 1)}"
